@@ -140,4 +140,48 @@ Section Oracles.
   Proof.
     intros R NM H. destruct (deny_before_change_file cfg env client R NM) as (_ & C & _). rewrite H in C. now apply C.
   Qed.
+
+  (* the same with a malformed request body and / or a failing data store: still nothing is
+     stored for a non-member, and whatever is stored was requested by a member *)
+  Lemma update_handle_f_plain key cfgl g client :
+    Handlers.update_handle_f pton4 pton6 false false key cfgl g client = update_handle key cfgl g client.
+  Proof. reflexivity. Qed.
+
+  Theorem deny_before_change_update_f bb sf key cfgl g client : restricted key cfgl = true ->
+    (forall st, update_stage key g = Some st ->
+       is_member (combine cfgl (if key then key_expected (fst st) (snd st) else ENone)) client = false) ->
+    snd (Handlers.update_handle_f pton4 pton6 bb sf key cfgl g client) = 0 /\
+    (fst (Handlers.update_handle_f pton4 pton6 bb sf key cfgl g client) = HForbidden \/
+     fst (Handlers.update_handle_f pton4 pton6 bb sf key cfgl g client) = HError).
+  Proof.
+    intros R NM. unfold Handlers.update_handle_f. destruct (update_stage key g) as [st|]; [|cbn; auto].
+    specialize (NM st eq_refl).
+    destruct (check (combine cfgl (if key then key_expected (fst st) (snd st) else ENone)) client) eqn:C;
+      try (cbn; auto).
+    destruct (check_granted _ _ C) as [E|M]; [|congruence].
+    destruct (combine_restricted _ _ _ R E) as [_ K]. now apply key_expected_not_none in K.
+  Qed.
+
+  Theorem fail_closed_update_f bb sf key cfgl g client : restricted key cfgl = true ->
+    snd (Handlers.update_handle_f pton4 pton6 bb sf key cfgl g client) <> 0 ->
+    exists st, update_stage key g = Some st /\
+      is_member (combine cfgl (if key then key_expected (fst st) (snd st) else ENone)) client = true.
+  Proof.
+    intros R H. unfold Handlers.update_handle_f in H. destruct (update_stage key g) as [st|]; [|now cbn in H].
+    exists st. split; [reflexivity|].
+    destruct (check (combine cfgl (if key then key_expected (fst st) (snd st) else ENone)) client) eqn:C;
+      try (now cbn in H).
+    destruct (check_granted _ _ C) as [E|M]; [|exact M].
+    destruct (combine_restricted _ _ _ R E) as [_ K]. now apply key_expected_not_none in K.
+  Qed.
+
+  (* a failing or refused operation changes nothing *)
+  Theorem update_failure_changes_nothing bb sf key cfgl g client :
+    fst (Handlers.update_handle_f pton4 pton6 bb sf key cfgl g client) <> HOk ->
+    snd (Handlers.update_handle_f pton4 pton6 bb sf key cfgl g client) = 0.
+  Proof.
+    unfold Handlers.update_handle_f, update_apply. destruct (update_stage key g); [|reflexivity].
+    destruct (check _ _); try reflexivity. destruct bb; [reflexivity|]. destruct sf; [reflexivity|].
+    cbn. congruence.
+  Qed.
 End Oracles.
